@@ -188,45 +188,52 @@ func (p *Prog) DroppedErrors(fn *Fn, want func(name string, call *ast.CallExpr) 
 			}
 			for c, o := range byStmtCall {
 				reg := fmt.Sprintf("pend:%d", c.Pos())
-				if ex.State.Regs[reg] == "" || ex.State.Regs[reg] == "nil" {
-					continue
+				state := ex.State.Regs[reg]
+				if state == "" || state == "nil" || testedNil(x, ex.State, o) {
+					continue // not pending, or proven nil on this path
 				}
-				if testedNil(x, ex.State, o) {
-					continue // proven nil on this path
-				}
-				if errIdx < 0 && (ex.State.Regs[reg] == "nonnil" || testedNonNil(x, ex.State, o)) {
-					continue // the function has no error result: the failure was tested and handled locally
-				}
-				// the error is (possibly) non-nil here: the function must return it
+				// does the function return the error (or something built from it)?
 				returned := false
+				nilErr := false
 				if ex.Ret != nil {
-					if len(ex.Ret.Results) == 0 {
-						// bare return: fine if o is the named error result
-						if errIdx >= 0 && fn.Sig.Results().At(errIdx) == o {
-							returned = true
-						}
+					if len(ex.Ret.Results) == 0 && errIdx >= 0 && fn.Sig.Results().At(errIdx) == o {
+						returned = true // bare return of the named error result
 					}
 					for _, r := range ex.Ret.Results {
-						mentions := false
 						ast.Inspect(r, func(n ast.Node) bool {
 							if id, isId := n.(*ast.Ident); isId && ObjOf(info, id) == o {
-								mentions = true
+								returned = true
 							}
 							return true
 						})
-						if mentions {
-							returned = true
+					}
+					if errIdx >= 0 && len(ex.Ret.Results) == fn.Sig.Results().Len() {
+						if id, isId := Unparen(ex.Ret.Results[errIdx]).(*ast.Ident); isId && id.Name == "nil" {
+							nilErr = true
 						}
 					}
 				}
-				if !returned && !reported[c] {
+				if returned {
+					continue
+				}
+				// Policy: an error that was never tested must be returned.  An error that was tested counts as
+				// handled once control has left the test (the code went on to try something else, as newNumber
+				// does) — except that returning a nil error while the variable is still known to be non-nil
+				// (inside the `err != nil` branch itself) replaces the failure by success.
+				msg := ""
+				switch {
+				case state == "live":
+					msg = fmt.Sprintf("a path returns without the error of %s (held in %q): it is neither tested nor returned", CalleeName(info, c), o.Name())
+				case state == "nonnil" && testedNonNil(x, ex.State, o) && nilErr && inNonNilBranch(fn, info, ex.Ret, o):
+					msg = fmt.Sprintf("the error of %s (held in %q) is known to be non-nil here, yet the function returns a nil error: the failure is replaced by success", CalleeName(info, c), o.Name())
+				}
+				if msg != "" && !reported[c] {
 					reported[c] = true
 					where := fn.Body.End()
-					if ex.Ret != nil && ex.Ret.Pos().IsValid() {
+					if ex.Ret != nil && ex.Ret.Pos().IsValid() && ex.Ret.Pos() < fn.Body.End() {
 						where = ex.Ret.Pos()
 					}
-					bad = append(bad, ErrFinding{Call: c, Pos: where, Trail: ex.Trail,
-						Msg: fmt.Sprintf("a path returns without the error of %s (held in %q): it is neither tested nor returned", CalleeName(info, c), o.Name())})
+					bad = append(bad, ErrFinding{Call: c, Pos: where, Trail: ex.Trail, Msg: msg})
 				}
 			}
 		}
@@ -250,6 +257,48 @@ func (p *Prog) DroppedErrors(fn *Fn, want func(name string, call *ast.CallExpr) 
 		}
 	}
 	return bad, ok
+}
+
+// inNonNilBranch: ret lies lexically inside the branch of an if statement that is taken when o != nil.
+func inNonNilBranch(fn *Fn, info *types.Info, ret *ast.ReturnStmt, o types.Object) bool {
+	if ret == nil || !ret.Pos().IsValid() {
+		return false
+	}
+	for _, enc := range EnclosingStmts(fn, ret) {
+		is, ok := enc.(*ast.IfStmt)
+		if !ok {
+			continue
+		}
+		for _, cj := range splitAnd(is.Cond) {
+			b, ok := Unparen(cj).(*ast.BinaryExpr)
+			if !ok || (b.Op != token.NEQ && b.Op != token.EQL) {
+				continue
+			}
+			var other ast.Expr
+			if id, isId := Unparen(b.X).(*ast.Ident); isId && ObjOf(info, id) == o {
+				other = b.Y
+			} else if id, isId := Unparen(b.Y).(*ast.Ident); isId && ObjOf(info, id) == o {
+				other = b.X
+			}
+			if other == nil || Str(other) != "nil" {
+				continue
+			}
+			inBody := is.Body.Pos() <= ret.Pos() && ret.End() <= is.Body.End()
+			inElse := is.Else != nil && is.Else.Pos() <= ret.Pos() && ret.End() <= is.Else.End()
+			if (b.Op == token.NEQ && inBody) || (b.Op == token.EQL && inElse) {
+				return true
+			}
+		}
+	}
+	return false
+}
+
+func splitAnd(e ast.Expr) []ast.Expr {
+	e = Unparen(e)
+	if b, ok := e.(*ast.BinaryExpr); ok && b.Op == token.LAND {
+		return append(splitAnd(b.X), splitAnd(b.Y)...)
+	}
+	return []ast.Expr{e}
 }
 
 func rhsOf(stmt ast.Node) ast.Expr {
